@@ -99,6 +99,9 @@ func c10Patient() *ppb.Patient {
 	}
 	p.Telecom = []*dtpb.ContactPoint{{Value: fstr("555-1")}, {Value: fstr("555-2")}, {Value: fstr("555-1")}}
 	p.Communication = append(p.Communication, &ppb.Patient_Communication{Language: &dtpb.CodeableConcept{Text: fstr("de")}}, &ppb.Patient_Communication{Preferred: &dtpb.Boolean{Value: true}, Language: &dtpb.CodeableConcept{Text: fstr("es")}})
+	for _, u := range []string{"http://example.org/fhir/StructureDefinition/flag", "http://example.org/fhir/StructureDefinition/Flag", "http://example.org/fhir/StructureDefinition/other", "http://example.org/fhir/StructureDefinition/flag", "HTTP://example.org/fhir/StructureDefinition/flag"} {
+		p.Extension = append(p.Extension, &dtpb.Extension{Url: &dtpb.Uri{Value: u}, Value: &dtpb.Extension_ValueX{Choice: &dtpb.Extension_ValueX_StringValue{StringValue: fstr(u[len(u)-4:])}}})
+	}
 	p.Address = []*dtpb.Address{{Line: []*dtpb.String{fstr("1 Main St"), fstr("Apt 2")}, City: fstr("X")}}
 	return p
 }
@@ -150,6 +153,7 @@ func c10Collections(p *ppb.Patient) []c10Coll {
 		{"%none", []any{}, true},
 		{"%protos", []any{shared, &dtpb.HumanName{Family: fstr("Zed")}, shared, &dtpb.HumanName{Family: fstr("Yan")}, p.Name[1]}, true},
 		{"%decs", []any{system.MustParseDecimal("0.10"), system.MustParseDecimal("0.1"), system.MustParseDecimal("0.100"), system.MustParseDecimal("3.0"), system.Integer(3)}, true},
+		{"%mixedc", []any{&dtpb.HumanName{Family: fstr("Zed")}, &dtpb.Period{}, &dtpb.HumanName{Family: fstr("Yan"), Given: []*dtpb.String{fstr("Y")}}, &dtpb.ContactPoint{Value: fstr("555")}, &dtpb.HumanName{Family: fstr("Zed")}}, true},
 		{"%other", []any{system.Integer(2), system.Integer(9), system.String("Ann"), system.MustParseDecimal("2.5"), fstr("Cy"), &dtpb.HumanName{Family: fstr("Zed")}, system.Integer(2)}, true},
 	}
 }
@@ -379,6 +383,32 @@ func runC10(cfg config) {
 				sink.add(fmt.Sprintf("%s %s %s, %s", f.ctor, cq, kq, oc), src+" => "+oc, f.ctor, f.ctor+"|"+c.name+"|"+k.src)
 			}
 		}
+		// extension(url) is extension.where(url = url): exact string equality, for every url the extensions carry
+		if c.name == "Patient.name" {
+			var exts []any
+			for _, e := range p.Extension {
+				exts = append(exts, e)
+			}
+			seenU := map[string]bool{}
+			for _, e := range p.Extension {
+				u := e.GetUrl().GetValue()
+				if seenU[u] {
+					continue
+				}
+				seenU[u] = true
+				var ks []string
+				for _, x := range p.Extension {
+					if x.GetUrl().GetValue() == u {
+						ks = append(ks, "KT")
+					} else {
+						ks = append(ks, "KF")
+					}
+				}
+				src := fmt.Sprintf("Patient.extension('%s')", u)
+				out, err, pan, _ := eval(src)
+				sink.add(fmt.Sprintf("CWhere %s %s, %s", cl.coll(exts), coqList(ks), collOutcome(out, err, pan, exts)), src+" => extension(url) against where(url = ...)", "CWhere", "extension|"+u)
+			}
+		}
 		// select
 		type proj struct {
 			src string
@@ -388,6 +418,28 @@ func runC10(cfg config) {
 			{"$this", func(it any) ([]any, bool) { return []any{it}, true }},
 			{"'k'", func(it any) ([]any, bool) { return []any{system.String("k")}, true }},
 			{"{}", func(it any) ([]any, bool) { return nil, true }},
+			// projections naming a field that only some of the items have: select() skips the others
+			{"family", func(it any) ([]any, bool) {
+				if n, ok := it.(*dtpb.HumanName); ok && n.Family != nil {
+					return []any{n.Family}, true
+				}
+				_, isMsg := it.(proto.Message)
+				return nil, isMsg
+			}},
+			{"where(family = 'Zed')", func(it any) ([]any, bool) {
+				if n, ok := it.(*dtpb.HumanName); ok && n.GetFamily().GetValue() == "Zed" {
+					return []any{it}, true
+				}
+				_, isMsg := it.(proto.Message)
+				return nil, isMsg
+			}},
+			{"$this.where(family.exists()).family", func(it any) ([]any, bool) {
+				if n, ok := it.(*dtpb.HumanName); ok && n.Family != nil {
+					return []any{n.Family}, true
+				}
+				_, isMsg := it.(proto.Message)
+				return nil, isMsg
+			}},
 			{"given", func(it any) ([]any, bool) {
 				n, ok := it.(*dtpb.HumanName)
 				if !ok {
@@ -401,6 +453,9 @@ func runC10(cfg config) {
 			}},
 		}
 		for _, pj := range projs {
+			if strings.Contains(pj.src, "family") && c.name != "%mixedc" && c.name != "%protos" && c.name != "Patient.name" {
+				continue // (a field none of the items has is an error, not a skip)
+			}
 			var pers []string
 			var pool []any
 			ok := true
